@@ -341,6 +341,12 @@ func checkInterceptor(p *core.Prog, res *core.Result, is *interceptorSpec, m rpc
 						}
 					}
 				}
+				if !okGraph && !reqHasGraph(m.ReqType) {
+					// a request without a graph field is authorised against the wildcard graph
+					if gv, ok := fl.Eval(call.Args[1], st); ok && gv.Kind() == constant.String && constant.StringVal(gv) == "*" {
+						okGraph = true
+					}
+				}
 				opv, opKnown := fl.Eval(call.Args[2], st)
 				okOp := opKnown && inTable && constant.Compare(opv, token.EQL, wantOp)
 				if okUser && okGraph && okOp {
@@ -409,6 +415,26 @@ func checkInterceptor(p *core.Prog, res *core.Result, is *interceptorSpec, m rpc
 	}
 }
 
+// reqHasGraph reports whether the request message type has a Graph field.
+func reqHasGraph(t types.Type) bool {
+	if t == nil {
+		return true // unknown: demand a request-derived graph
+	}
+	if pt, ok := t.(*types.Pointer); ok {
+		t = pt.Elem()
+	}
+	st, ok := t.Underlying().(*types.Struct)
+	if !ok {
+		return true
+	}
+	for i := 0; i < st.NumFields(); i++ {
+		if st.Field(i).Name() == "Graph" {
+			return true
+		}
+	}
+	return false
+}
+
 func defOrUse(info *types.Info, e ast.Expr) types.Object {
 	id, ok := ast.Unparen(e).(*ast.Ident)
 	if !ok {
@@ -473,6 +499,34 @@ func checkExtractor(p *core.Prog, res *core.Result, fi *core.FuncInfo, m rpcMeth
 			found = true
 			okAssert := true
 			var note string
+			asserted := map[types.Object]bool{}
+			for _, s := range cc.Body {
+				if as, ok := s.(*ast.AssignStmt); ok && len(as.Lhs) == 1 && len(as.Rhs) == 1 {
+					if ta, ok := as.Rhs[0].(*ast.TypeAssertExpr); ok && defOrUse(info, ta.X) == reqParam {
+						if o := defOrUse(info, as.Lhs[0]); o != nil {
+							asserted[o] = true
+						}
+					}
+				}
+				if ret, ok := s.(*ast.ReturnStmt); ok && len(ret.Results) == 2 {
+					g := ast.Unparen(ret.Results[0])
+					fromReq := false
+					if sel, ok := g.(*ast.SelectorExpr); ok && sel.Sel.Name == "Graph" {
+						if o := defOrUse(info, sel.X); o != nil && asserted[o] {
+							fromReq = true
+						}
+					}
+					tv := info.Types[g]
+					isStar := tv.Value != nil && tv.Value.Kind() == constant.String && constant.StringVal(tv.Value) == "*"
+					if reqHasGraph(m.ReqType) && !fromReq {
+						okAssert = false
+						note = fmt.Sprintf("case for %s does not return the Graph field of its request (%s has one): authorisation would be decided for another graph than the one the handler uses", m.Full, m.ReqType)
+					} else if !reqHasGraph(m.ReqType) && !isStar {
+						okAssert = false
+						note = fmt.Sprintf("case for %s (request without a graph) must authorise against the wildcard graph \"*\"", m.Full)
+					}
+				}
+			}
 			for _, s := range cc.Body {
 				ast.Inspect(s, func(x ast.Node) bool {
 					ta, ok := x.(*ast.TypeAssertExpr)
@@ -491,7 +545,7 @@ func checkExtractor(p *core.Prog, res *core.Result, fi *core.FuncInfo, m rpcMeth
 				})
 			}
 			if okAssert {
-				res.OK(rule, "extract|"+m.Full, p.Pos(cc.Pos()), "case present; asserted type equals the request type")
+				res.OK(rule, "extract|"+m.Full, p.Pos(cc.Pos()), "case present; asserted type equals the request type; returns the request's graph (or \"*\" for graph-less requests)")
 			} else {
 				res.Bad(rule, "extract|"+m.Full, p.Pos(cc.Pos()), note)
 			}
